@@ -44,9 +44,22 @@ Proof. apply env_valid_vm. apply (go_lits _ _ _ _ HG). Qed.
 
 Definition Cl (e : oexpr) : Prop := exists k, fclean k e = true.
 
+(* ... or in the semantic sense *)
+Definition ClS (e : oexpr) : Prop := Cl e \/ sem_clean OG e.
+
+Lemma psim_sem (C : Prop) e a emit p sg r :
+  psim C (vm_expr e) a emit p sg r -> psim (C \/ sem_clean OG e) (vm_expr e) a emit p sg r.
+Proof.
+  intros H N s R. destruct (H N s R) as (vr & R1 & S1). exists vr. split; [exact R1|].
+  destruct vr as [s'|s'|k|]; cbn in *; auto. destruct S1 as (A0 & A1 & A2 & A3).
+  split; [exact A0|]. split; [exact A1|]. split; [exact A2|]. intros [HC|HS]; [auto|].
+  destruct R1 as [_ [m A]]. destruct (r_good _ _ _ _ _ _ R) as [W [a0 I0] _ _].
+  exact (HS cfg uranges m s a0 s' W I0 A).
+Qed.
+
 Definition sim_at (n : nat) : Prop :=
-  forall e a emit p sg, in_fragment e = true -> rok K e = true -> lits_valid e ->
-    psim (Cl e) (vm_expr e) a emit p sg (ev n a emit (embed e) p sg).
+  forall e a emit p sg, in_fragment e = true -> rokP OG K e -> lits_valid e ->
+    psim (ClS e) (vm_expr e) a emit p sg (ev n a emit (embed e) p sg).
 
 (* ---------- Spec and VM on an identifier that is not a hard-coded name ---------- *)
 Ltac nb_rewrite NB :=
@@ -90,8 +103,8 @@ Proof.
     destruct (find_orule_some OG n r Ef) as [Hin Hn].
     pose proof (go_frag _ _ _ _ HG r Hin) as Fr. pose proof (go_rok _ _ _ _ HG r Hin) as Ro.
     pose proof (go_lits _ _ _ _ HG r Hin) as Li.
-    assert (CB : Cl (OIdent n) -> Cl (oexpr_of r)).
-    { intros [k Hk]. destruct k as [|k]; cbn [Refine6.fclean fclean_e] in Hk; rewrite NB, Ef in Hk; [discriminate|exists k; exact Hk]. }
+    assert (CB : Cl (OIdent n) -> ClS (oexpr_of r)).
+    { intros [k Hk]. left. destruct k as [|k]; cbn [Refine6.fclean fclean_e] in Hk; rewrite NB, Ef in Hk; [discriminate|exists k; exact Hk]. }
     assert (B : forall a2, psim (Cl (OIdent n)) (vm_expr (oexpr_of r)) a2 emit p sg (ev f a2 emit (embed (oexpr_of r)) p sg)).
     { intros a2. eapply psim_weaken; [exact CB|]. apply IH; assumption. }
     apply (psim_call cfg E w pp _ _ (vm_rule_body OG uranges r)); [apply env_lookup; [apply (go_nodup _ _ _ _ HG)|exact Ef]|].
